@@ -827,7 +827,7 @@ class Check(PropertyCheck):
                 d = dict(x.split("=", 1) for x in r.split(" ") if "=" in x)
                 out.append(f"F={d.get('F')} B={d.get('B')}" if d else r)
             return out
-        return replies[1:]
+        return [self._canon(x) for x in replies[1:]]
 
     def impl_view(self, case, obs):
         if case["kind"] == "buf":
@@ -839,7 +839,16 @@ class Check(PropertyCheck):
             if r["in"] is None: continue
             out.append(f"F={jo(frames)} U={jo(r['ups'])} Q={jo(r['q'])} M={jo(r['m'])} O={r['o']} B={jo(r['b'])} "
                        f"X={1 if r['closed'] else 0}{1 if r['exc'] else 0}")
-        return out
+        return [self._canon(x) for x in out]
+
+    @staticmethod
+    def _canon(line):
+        """once the connection is closed nothing is written to it any more: what is left in the send buffers (hyper-h2
+        raises in the middle of BufferedH2Connection.receive_data when a WINDOW_UPDATE comes with a GOAWAY) is not compared"""
+        d = dict(x.split("=", 1) for x in line.split(" ") if "=" in x)
+        if d.get("X", "00")[0] == "1":
+            d["B"] = "*"
+        return " ".join(f"{k}={v}" for k, v in d.items())
 
     @staticmethod
     def _buf_view(s):
